@@ -494,11 +494,39 @@ pub fn check_c14(obs: &Observation) -> V {
             sessions.push((linked_at, None, session_items, true));
         }
         if clean_quiescence && r.dropped_at.is_none() {
-            for (la, ua, items, open) in &sessions {
+            // the remote's own requests, grouped into sessions: opened by the first link / sync
+            // request sent while it has no open request session, closed by its next unlink request;
+            // the k-th session of frames belongs to the k-th session of requests (a remote that sends
+            // all its envelopes before it reads anything must not have every `linked` attributed to
+            // its latest request)
+            let mut req_sessions: Vec<(u64, Option<u64>)> = vec![];
+            for (s, st) in &r.sent {
+                match st {
+                    Step::Link(l) | Step::Sync(l) if l == "s" => {
+                        if req_sessions.last().map(|(_, c)| c.is_some()).unwrap_or(true) {
+                            req_sessions.push((*s, None));
+                        }
+                    }
+                    Step::Unlink(l) if l == "s" => {
+                        if let Some(last) = req_sessions.last_mut() {
+                            if last.1.is_none() {
+                                last.1 = Some(*s);
+                            }
+                        }
+                    }
+                    _ => {}
+                }
+            }
+            for (k, (la, ua, items, open)) in sessions.iter().enumerate() {
                 // every item pushed after the remote read `linked` and before it sent `unlink`
-                // the request that opened this session, and the first unlink request sent after it
-                let req_step: u64 = r.sent.iter().filter(|(s, st)| *s < *la && matches!(st, Step::Link(l) | Step::Sync(l) if l == "s")).map(|(s, _)| *s).last().unwrap_or(0);
-                let unlink_sent: Option<u64> = r.sent.iter().filter(|(s, st)| matches!(st, Step::Unlink(l) if l == "s") && *s > req_step).map(|(s, _)| *s).next();
+                let (req_step, unlink_sent): (u64, Option<u64>) = match req_sessions.get(k) {
+                    Some((o, c)) => (*o, *c),
+                    None => {
+                        let rs = r.sent.iter().filter(|(s, st)| *s < *la && matches!(st, Step::Link(l) | Step::Sync(l) if l == "s")).map(|(s, _)| *s).last().unwrap_or(0);
+                        (rs, r.sent.iter().filter(|(s, st)| matches!(st, Step::Unlink(l) if l == "s") && *s > rs).map(|(s, _)| *s).next())
+                    }
+                };
+                let _ = req_step;
                 let end = match (unlink_sent, ua) {
                     (Some(u), _) => u,
                     (None, Some(u)) => *u,
